@@ -112,6 +112,8 @@ def corpus():
         [["c1", "b1", "A", "B"], ["c2", "b1", "X"], ["c1", "b2", "A"], ["c1", "b3", "C", "A"], ["c2", "b3", "Y", "X"],
          ["c1", "b4", "B", "C", "A"], ["c1", "b5", "A", "C"], ["c2", "b5"], ["c1", "b1", "A", "C", "B"]]))
     out.append(raire_case([["c1", ["A", "B"], "A"]], [["c1", "b1", "A"], ["c1", "b2", "A", "B"], ["c1", "b3", "B"]]))
+    # frontier holding a NEN node and a NEB assertion with the same winner and loser (same_as must tell them apart)
+    out.append(raire_case([["c1", ["A", "B", "C"], "A"]], [["c1", "b1", "A"], ["c1", "b2", "A"], ["c1", "b3", "B", "A"]]))
     out.append(raire_case([["c1", ["A", "B", "C"], "A"]], [["c1", "b1", "A", "W", "B"], ["c1", "b2", "W"], ["c1", "b3", "A"]],
                           unlisted=True))
     out.append(raire_case([["c1", ["A", "B", "C"], "A"]], [["c1", "b1", "A", "B", "A"], ["c1", "b2", "A"]], wellformed=False))
